@@ -286,6 +286,27 @@ def run(ctx: Context, rep) -> None:
                loc=loc_fn.loc(c), where=loc_fn.qualname, construct=short(c),
                message="both sides of the containment test are resolved "
                "paths")
+    # the path tested is the path read, completely resolved: the receiver of
+    # the containment test is <read path>.resolve() (or the read goes through
+    # the resolved path itself) - resolving only the directory leaves the
+    # last component free to be a link that leaves the root
+    from sa.norm import canon as _canon
+    read_paths = []
+    for rc in loc_fn.calls():
+        if "FS_READ" in ctx.effects(loc_fn, rc) and isinstance(
+                rc.func, ast.Attribute):
+            read_paths.append(rc.func.value)
+    for c in tests:
+        rc_ = _canon(loc_fn, c.func.value)
+        ok_same = bool(read_paths) and all(
+            rc_ == _canon(loc_fn, r) or
+            rc_ == f"({_canon(loc_fn, r)}).resolve()" or
+            rc_ == f"{_canon(loc_fn, r)}.resolve()" for r in read_paths)
+        rep.ob("C17.contain", ok_same, loc=loc_fn.loc(c), where=loc_fn.qualname,
+               construct=f"tested {short(ast.parse(rc_, mode='eval').body, 60)}"
+               f" / read {[short(ast.parse(_canon(loc_fn, r), mode='eval').body, 50) for r in read_paths]}",
+               message="the containment test is made on the complete "
+               "resolved path of the file that is read")
     v = Valuation(loc_fn, contain_atom, {"contained": False})
     cfg = CFG(loc_fn, oracle=v.truth)
     live = cfg.reachable([cfg.entry], follow=lambda a, b, lab: lab != "exc")
@@ -401,6 +422,9 @@ _DF = "src/sedpack/io/dataset_filler.py"
 _ABS_FI = ('        if v.is_absolute():\n            raise ValueError("An absolute path is not relative to "\n'
            '                             "`dataset_root_path`.")\n')
 SELFTESTS = [
+    dict(rule="C17.contain", name="only-directory-resolved", expect="fire", path=_SM,
+         old="        canonical_path = (dataset_root_path / relative_path_self).resolve()\n",
+         new="        canonical_path = (dataset_root_path / relative_path_self.parent).resolve() / relative_path_self.name\n"),
     dict(rule="C17.validate", name="fileinfo-drop-absolute", expect="fire",
          path=_FI, old=_ABS_FI, new=""),
     dict(rule="C17.validate", name="fileinfo-drop-dotdot", expect="fire",
